@@ -128,7 +128,7 @@ func (c *c20Case) argv() []string {
 }
 
 func (c *c20Case) materialise(dir string) error {
-	for _, f := range c.Files {
+	for i, f := range c.Files {
 		p := filepath.Join(dir, f.Path)
 		if err := os.MkdirAll(filepath.Dir(p), 0o755); err != nil {
 			return err
@@ -136,6 +136,17 @@ func (c *c20Case) materialise(dir string) error {
 		switch f.Kind {
 		case "dangling":
 			if err := os.Symlink(filepath.Join(dir, "no-such-target"), p); err != nil {
+				return err
+			}
+		case "link":
+			target := filepath.Join(dir, ".targets", fmt.Sprintf("t%d", i))
+			if err := os.MkdirAll(filepath.Dir(target), 0o755); err != nil {
+				return err
+			}
+			if err := os.WriteFile(target, f.Data, 0o644); err != nil {
+				return err
+			}
+			if err := os.Symlink(target, p); err != nil {
 				return err
 			}
 		default:
@@ -571,7 +582,7 @@ func genCLIFileData(t *rapid.T, kind string, bad bool) []byte {
 	switch kind {
 	case "xml":
 		ev := xmodel.Gen(t, xmodel.GenCfg{MaxDepth: 3, MaxKids: 3, MaxTop: 1, XMLSafe: true, XMLEverywhere: true, Undeclare: true,
-			Names: []string{"a", "b", "c"}, Values: []string{"1", "2", "x y", "<&>", "é", "a\"b", "line\nbreak", " pad ", "10", "\n", "\n  ", " ", "\t\n", "a\n", "?>", "]]>", "-->"}})
+			Names: []string{"a", "b", "c", "a", "b", "c", "link", "meta", "br", "col", "LINK"}, Values: []string{"1", "2", "x y", "<&>", "é", "a\"b", "line\nbreak", " pad ", "10", "\n", "\n  ", " ", "\t\n", "a\n", "?>", "]]>", "-->"}})
 		b, _, _, ok := serialise(t, xmodel.Build(ev), true)
 		if !ok {
 			b = []byte("<a/>")
@@ -614,7 +625,7 @@ func TestC20(t *testing.T) {
 			}
 			stem := "f"
 			if rapid.IntRange(0, 3).Draw(t, "oddName") == 0 {
-				stem = []string{"sp ace", "é", "a:b", ".hid", "x.y", "colon: x", "q'uote", "tab\tx", "#h", "a&b"}[rapid.IntRange(0, 9).Draw(t, "stem")]
+				stem = []string{"sp ace", "é", "a:b", ".hid", "x.y", "colon: x", "q'uote", "tab\tx", "#h", "a&b", "50%off", "%s%d", "100%", "a%20b"}[rapid.IntRange(0, 13).Draw(t, "stem")]
 				st.Class("unusual file name")
 			}
 			f := cliFile{Kind: "file", Path: fmt.Sprintf("%s%s%d%s", dirs[rapid.IntRange(0, len(dirs)-1).Draw(t, "dir")], stem, i, ext)}
@@ -623,6 +634,10 @@ func TestC20(t *testing.T) {
 				f.Data = genCLIFileData(t, kind, true) // malformed
 			case 1:
 				f.Kind = "dangling"
+			case 3:
+				// a symbolic link to a regular file with the same contents elsewhere (it is read like any other file)
+				f.Kind = "link"
+				f.Data = genCLIFileData(t, kind, false)
 			case 2:
 				f.Path = strings.TrimSuffix(f.Path, ext) + []string{".txt", "", ".svg"}[rapid.IntRange(0, 2).Draw(t, "oddExt")]
 				f.Data = genCLIFileData(t, "xml", false)
